@@ -597,8 +597,10 @@ def rule_flag_table(res, rid, m):
                     seg = a[2]
                 elif arg.get("decl") in firstflags:
                     first = a[2]
-                elif is_last_pred(facts.expand(pp, arg)):
-                    last = a[2]
+                elif is_last_pred(facts.expand(pp, arg, keep=(posv, chunk))) or \
+                        (arg.get("k") == "ref" and arg.get("dk") == "local" and facts.current_definition(pp, arg) is not None and
+                         is_last_pred(facts.current_definition(pp, arg))):
+                    last = a[2]  # (also: a bool local computed in the caller from the values of this iteration)
                 else:
                     unknown.append("%s := %s" % (a[1], canon(arg)))
             elif a[0] == "cmp" and a[2] in ("==", "!="):
